@@ -43,7 +43,20 @@ func hsmsParse(b []byte) (msg ast.HSMSMessage, ok bool, o real.Outcome) {
 		p := hsmsPoison[(h/4)%uint64(len(hsmsPoison))]
 		real.Try(func() { hsms.Parse(append([]byte(nil), p...)) })
 	}
-	o = real.Try(func() { msg, ok = hsms.Parse(b) })
+	// Receive-loop device (round 10): the decoder gets its own copy of the frame, in a buffer with spare capacity, and
+	// the copy is overwritten with the next "frame" - two-byte UTF-8 sequences, which change the rune count of any text
+	// that still reads from the buffer - before the caller looks at the result. A decoded message denotes the bytes it
+	// was decoded from, not the buffer they arrived in.
+	in := append(make([]byte, 0, len(b)+16), b...)
+	o = real.Try(func() { msg, ok = hsms.Parse(in) })
+	in = in[:cap(in)]
+	for i := range in {
+		if i&1 == 0 {
+			in[i] = 0xC3
+		} else {
+			in[i] = 0xA9
+		}
+	}
 	return
 }
 
